@@ -73,6 +73,38 @@ CHECKS = {
             "Known defect demonstrated on the unchanged tree: left_quotient raises MissingStateError (DESIGN 8 row 3). Open known finding: "
             "nfa_stray_transition_row (a row keyed by a non-state passes validate(); union/concatenate raise KeyError, reverse "
             "InvalidStateError).", "7/C08"),
+    "C13": ("Coq theorems about executable models of the count / word-list recurrences, BFS minimum length, layered maximum "
+            "length, cardinality, iteration and count-weighted unranking + differential correspondence against /repo "
+            "(all observables compared literally; randint draws reproduced from Random(seed); all draw vectors enumerated "
+            "through a scripted generator)",
+            "Proved for all valid DFAs, all lengths k, all draw vectors (unbounded): count_words_of_length = number of accepted "
+            "words of length k; words_of_length = the lexicographic listing filtered by acceptance (sorted, duplicate-free, "
+            "complete); minimum_word_length exact / EmptyLanguageException iff the language is empty; maximum_word_length exact, "
+            "None iff the language is infinite (pumping), Empty iff empty; cardinality = number of accepted words / "
+            "InfiniteLanguageException iff infinite / 0 if empty; iteration = prefix of the (length, lexicographic) listing, "
+            "complete for finite languages, nothing for the empty language; random_word returns an accepted word of length k "
+            "for every admissible draw vector, ValueError iff there is no such word. PARTIAL: (a) iteration of an infinite "
+            "language - the model's level budget is not proved sufficient (C13_iter_order_complete_partial allows an "
+            "out-of-fuel answer there; the harness treats it as a disagreement); (b) uniformity of random_word - proved as the "
+            "per-step interval lemma plus the telescoping product identity (C13_random_word_uniform_partial); the count of whole "
+            "draw vectors (C13_random_word_uniform_statement) is not formalised, it is enumerated by the harness instead.",
+            "Assumes Random.randint is uniform (the model takes the drawn integers as an argument). networkx "
+            "(digraph, dag_longest_path_length) is outside the model: maximum_word_length is a specification model. "
+            "Demonstrates DESIGN section 8 row 7 on the unchanged tree (iterating an empty language raises).", "7/C13"),
+    "C20": ("Coq state-machine model of the DFA object (definition + count cache + word cache + cached_method memos) with an "
+            "invariant proof over arbitrary query histories + differential correspondence: random histories on one instance vs a "
+            "fresh copy vs the model",
+            "Proved for all valid DFAs and all finite histories (unbounded length) of count / words / abandoned words generator / "
+            "random_word / cardinality / min / max / isempty / isfinite / abandoned iteration / clear_cache: every stored cache "
+            "level equals the from-scratch level, every memo is empty or holds the stateless answer (cache_inv, kept by every "
+            "step), hence the answer to any query after any history equals the stateless C13 answer (C20_history_independent), "
+            "in particular shorter-after-longer lengths and answers after clear_cache.",
+            "Not in the model (compared against a fresh object by the harness only): accepts_input, ==, <=, successor(s), "
+            "NFA queries (accepts_input, partially consumed read_input_stepwise, ==, DFA.from_nfa - the latter also checked "
+            "with the verified NFA/DFA comparator, eliminate_lambda, reverse). Python object identity / generator "
+            "suspension semantics are modelled (an abandoned generator = the effects up to its n-th item), not verified. "
+            "cached_method raises RuntimeError when called on a temporary object (third-party behaviour, outside the property).",
+            "7/C20"),
 }
 
 PENDING = {}
